@@ -5,6 +5,7 @@ import PV.Model.Grouping
 import PV.Model.TED
 import PV.Model.Gate
 import PV.Model.CFG
+import PV.Model.Summary
 /-!
 Line-protocol driver: runs the executable models on the cases the harness also ran on the
 implementation.  Core-only imports (links as a native executable).
@@ -203,6 +204,38 @@ def runCfg (t : Array String) : String :=
   let fstr := joinWith ";" (fs.toList.map fun f => s!"{f.s}-{f.e}-{if f.critical then "c" else "w"}")
   s!"{PV.CFG.complexity st}|{fstr}|{natsSorted (PV.CFG.liveLines st)}|{natsSorted (PV.CFG.deadLines st)}"
 
+def hex16 (f : Float) : String :=
+  let u := f.toBits.toNat
+  let digs := (List.range 16).map fun i => (Nat.toDigits 16 ((u / 16 ^ (15 - i)) % 16)).headD '0'
+  String.ofList digs
+
+/-- `summary depsEn archEn cx? files n avg high dead? total crit warn info clone? total pairs groups lines cbo? classes high med avg
+    lcom? classes high med avg sys? hasDeps modules depth hasCirc cycMods hasCoupling msd hasArch compliance l10 l2` -/
+def runSummary (t : Array String) : String :=
+  if t.size < 39 then "bad-op" else
+  let l10 := floatOfHex t[37]!
+  let l2 := floatOfHex t[38]!
+  let _inst : Arith Float := floatArith l10 l2
+  let i (k : Nat) : Int := tokI t[k]!
+  let b (k : Nat) : Bool := tokB t[k]!
+  let f (k : Nat) : Float := floatOfHex t[k]!
+  let r : PV.Summary.Sections Float := {
+    cx := if b 2 then some { files := i 3, n := i 4, avg := f 5, high := i 6 } else none,
+    dead := if b 7 then some { total := i 8, crit := i 9, warn := i 10, info := i 11 } else none,
+    clone := if b 12 then some { total := i 13, pairs := i 14, groups := i 15, lines := i 16 } else none,
+    cbo := if b 17 then some { classes := i 18, high := i 19, med := i 20, avg := f 21 } else none,
+    lcom := if b 22 then some { classes := i 23, high := i 24, med := i 25, avg := f 26 } else none,
+    sys := if b 27 then some { hasDeps := b 28, modules := i 29, depth := i 30, hasCirc := b 31, cycMods := i 32, hasCoupling := b 33, msd := f 34,
+                               hasArch := b 35, compliance := f 36 } else none }
+  let s0 : PV.Generated.Score.AnalyzeSummary Float := { DepsEnabled := b 0, ArchEnabled := b 1 }
+  let s := PV.Summary.calculateSummary Float s0 r
+  let ints := [s.TotalFiles, s.AnalyzedFiles, s.TotalFunctions, s.HighComplexityCount, s.DeadCodeCount, s.CriticalDeadCode, s.WarningDeadCode,
+    s.InfoDeadCode, s.TotalClones, s.ClonePairs, s.CloneGroups, s.CBOClasses, s.HighCouplingClasses, s.MediumCouplingClasses,
+    s.LCOMClasses, s.HighLCOMClasses, s.MediumLCOMClasses, s.DepsTotalModules, s.DepsModulesInCycles, s.DepsMaxDepth]
+  let floats := [s.AverageComplexity, s.CodeDuplication, s.AverageCoupling, s.AverageLCOM, s.DepsMainSequenceDeviation, s.ArchCompliance]
+  let scores := [s.ComplexityScore, s.DeadCodeScore, s.DuplicationScore, s.CouplingScore, s.CohesionScore, s.DependencyScore, s.ArchitectureScore]
+  s!"{joinWith "," (ints.map toString)}|{joinWith "," (floats.map hex16)}|{s.HealthScore}|{s.Grade}|{joinWith "," (scores.map toString)}"
+
 def step (line : String) : String :=
   let parts := (line.splitOn " ").filter (· ≠ "")
   match parts with
@@ -216,6 +249,7 @@ def step (line : String) : String :=
     | "ted" => runTed t
     | "gate" => runGate t
     | "cfg" => runCfg t
+    | "summary" => runSummary t
     | _ => "bad-op"
 
 partial def loop (h : IO.FS.Stream) (out : IO.FS.Stream) : IO Unit := do
